@@ -25,7 +25,7 @@ ASSUMPTIONS = ["thread schedules and hash seeds are sampled, not proved", "decim
 EXPLANATION = ("Lean: the scores are functions of the parsed metric map only (model is pure) and v3_decimal_robust / exactness show the "
                "arithmetic part is independent of rounding mode and precision >= 28; histories, threads and hash seeds are tied by "
                "differential execution against the model's pure prediction.")
-MASK = {"2": "svcrte", "3": "svcrte", "4": "svcr"}
+MASK = {"2": "svcrtejkJK", "3": "svcrtejkJK", "4": "svcrjkJK"}
 
 
 def snapshot():
@@ -34,7 +34,9 @@ def snapshot():
                  "cvss.exceptions", "cvss.interactive", "cvss"):
         mod = importlib.import_module(name)
         for k, v in vars(mod).items():
-            if k.startswith("__"):
+            # the library's tables and public names; a PRIVATE module global (leading underscore: a cache, a lock, a lazily
+            # built table) may change - what it must not do is change any result, which the probes above decide
+            if k.startswith("_"):
                 continue
             if isinstance(v, (dict, list, tuple, str, int, float, decimal.Decimal, set, frozenset)) or v is None:
                 snap[name + "." + k] = repr(v)
@@ -260,8 +262,8 @@ def run(ctx):
     cold_ops = [["C", v, s] for v, s in probes_[:: max(1, len(probes_) // 150)] if core.sendable(s)]
     conc.cold_start(ctx, cold_ops, "any", runs=ctx.n(4, 16), nthreads=8)
     for v, s in probes_[:: max(1, len(probes_) // ctx.n(300, 3000))]:
-        outs = [probe_out(v, s) for _ in range(3)]
-        ctx.count(3)
+        outs = [probe_out(v, s) for _ in range(4)]
+        ctx.count(4)
         if len(set(outs)) != 1:
             ctx.violation("result-changes-on-repeated-construction", "constructing the identical string again gives another result", s, outs[0][:200], outs[-1][:200],
                           replay={"kind": "fresh", "ver": v, "s": s})
